@@ -1365,3 +1365,90 @@ def r_sparse_safe(ctx, f: FunctionInfo, name: str, rule="R-KIND", chain=None):
     ctx.ob(rule, f, key, not bad, f"{n} subscript(s), all on the dense representation" if not bad else
            f"`{unparse(bad[0])}` runs while `{name}` may still be a scipy.sparse matrix (the function itself tests issparse({name}) elsewhere): "
            "dia_matrix -- what iden(.., is_sparse=True) returns -- is not subscriptable", bad[0] if bad else None, chain=chain)
+
+
+# ---------------------------------------------------------------------------------------------
+def _parents(fnode):
+    par = {}
+    for p in ast.walk(fnode):
+        for ch in ast.iter_child_nodes(p):
+            par[id(ch)] = p
+    return par
+
+
+def r_roots_rounded(ctx, f: FunctionInfo, rule="R-KIND", chain=None):
+    """An inferred local dimension `N ** (1 / k)` (or sqrt) is a float that may sit just below the integer (64 ** (1/3) ==
+    3.9999999999999996); it must pass through round / np.round / np.rint before it is used as a dimension (int(), astype(int),
+    integer product).  Every fractional power in the function must have a rounding call among its ancestors or be the
+    operand of a comparison with its own rounding (the 'is it an integer' test)."""
+    par = _parents(f.node)
+    sites, bad = 0, []
+    for n in walk_no_nested(f.node):
+        is_root = False
+        if isinstance(n, ast.BinOp) and isinstance(n.op, ast.Pow):
+            e = n.right
+            if isinstance(e, ast.BinOp) and isinstance(e.op, ast.Div) and isinstance(e.left, ast.Constant) and e.left.value == 1 and not (isinstance(e.right, ast.Constant) and e.right.value == 1):
+                is_root = True
+            if isinstance(e, ast.Constant) and isinstance(e.value, float) and 0 < e.value < 1:
+                is_root = True
+        if not is_root:
+            continue
+        # only roots of sizes (shape / len) are dimension inferences
+        txt = unparse(n.left)
+        if not any(k in txt for k in ("shape", "len(", "dims", "size")):
+            continue
+        sites += 1
+        p = par.get(id(n))
+        ok = False
+        while p is not None and not isinstance(p, ast.stmt):
+            if isinstance(p, ast.Call):
+                nm = p.func.attr if isinstance(p.func, ast.Attribute) else p.func.id if isinstance(p.func, ast.Name) else ""
+                if nm in ("round", "rint", "around"):
+                    ok = True
+                    break
+            p = par.get(id(p))
+        if not ok:
+            bad.append(n)
+    if sites:
+        ctx.ob(rule, f, "inferred local dimensions (k-th roots of a size) are rounded before use", not bad,
+               f"{sites} root(s), all inside round()" if not bad else
+               f"`{unparse(bad[0])[:60]}` is used without rounding: a perfect power can come out one ulp low (64 ** (1/3) == 3.9999999999999996) and the later integer "
+               "product of the dimensions then misses the size of the operand", bad[0] if bad else None, chain=chain)
+    return sites
+
+
+def r_subsystem_count(ctx, f: FunctionInfo, dim_name="dim", rule="R-SHAPE", chain=None):
+    """When a function builds or accepts a two-row dimension table (rows = row / column dimensions, columns = subsystems), the
+    number of subsystems is the number of COLUMNS: `len(dim)` of such a table counts its rows."""
+    two_row = False
+    for n in walk_no_nested(f.node):
+        if isinstance(n, ast.Assign) and len(n.targets) == 1 and isinstance(n.targets[0], ast.Name) and n.targets[0].id == dim_name:
+            v = n.value
+            if isinstance(v, ast.Call) and v.args and isinstance(v.args[0], (ast.List, ast.Tuple)) and v.args[0].elts and all(isinstance(e, (ast.List, ast.Tuple)) for e in v.args[0].elts) \
+                    and len(v.args[0].elts) == 2:
+                two_row = True
+        if isinstance(n, ast.Subscript) and isinstance(n.value, ast.Name) and n.value.id == dim_name and isinstance(n.slice, ast.Tuple) and len(n.slice.elts) == 2:
+            two_row = True
+    if not two_row:
+        return 0
+    from . import flow as flw
+
+    bad, n_len = [], 0
+    for n in walk_no_nested(f.node):
+        if isinstance(n, ast.Call) and isinstance(n.func, ast.Name) and n.func.id == "len" and n.args and isinstance(n.args[0], ast.Name) and n.args[0].id == dim_name:
+            n_len += 1
+            # harmless when the table is known to be one-dimensional on this path (e.g. under `len(dim.shape) == 1`)
+            hit = flw.find_stmt_of(f.node, n)
+            conds = " & ".join(unparse(t) for t, pol in flw.conds(hit[1]) if pol) if hit else ""
+            if "shape) == 1" in conds or "ndim == 1" in conds:
+                continue
+            # used as an extent to BUILD the table (np.ones((2, len(dim)))) on a path where dim is still 1-D: also harmless
+            stmt = hit[0] if hit else None
+            if isinstance(stmt, ast.Assign) and len(stmt.targets) == 1 and isinstance(stmt.targets[0], ast.Name) and stmt.targets[0].id == dim_name:
+                continue
+            bad.append(n)
+    ctx.ob(rule, f, f"the subsystem count of the `{dim_name}` table is its number of columns", not bad,
+           f"{n_len} len({dim_name}) use(s), none on a two-row table" if not bad else
+           f"`{unparse(bad[0])}` counts the ROWS of a table that can have two rows (row / column dimensions): with separate row and column dimensions for n > 2 subsystems "
+           "the count is 2 and valid subsystem indices are rejected or mis-permuted", bad[0] if bad else None, chain=chain)
+    return 1
